@@ -48,6 +48,8 @@ struct Profile {
     own_checksum: u64,
     /// one block op in `zero_time` sets the block time to 0 (only on chains without validators)
     zero_time: u64,
+    /// one node in `crash` panics instead of returning
+    crash: u64,
 }
 
 fn profile(prop: &str, tier: Tier, rng: &mut Rng) -> Profile {
@@ -86,6 +88,7 @@ fn profile(prop: &str, tier: Tier, rng: &mut Rng) -> Profile {
         salted: 35,
         own_checksum: 20,
         zero_time: 40,
+        crash: 150,
     };
     match prop {
         "C01" => {
@@ -180,6 +183,7 @@ fn profile(prop: &str, tier: Tier, rng: &mut Rng) -> Profile {
             p.w_block = 4;
             p.zero_time = 5;
             p.queries = 50;
+            p.crash = 40;
         }
         "C17" => {
             p.s_module = 16;
@@ -486,6 +490,8 @@ impl<'a> Gen<'a> {
             }
         }
         n.fail = self.pc(self.p.fail);
+        // a crash instead of an error, rarely (and more often where runs are compared across instances)
+        n.panic = self.rng.chance(1, self.p.crash);
         if self.pc(self.p.attrs) {
             for _ in 0..self.rng.below(3) {
                 let bad = self.pc(self.p.malformed);
